@@ -235,36 +235,51 @@ def clause_validator_rows(R, F):
         if rl in ("!=", "==") and [x[0] for x in rr] == ["waiting"] and kk == 0:
             ok = True
     R.ob(ok, "GUARD", g.where(), "GUARD|validate_next_tx|first-tx", "timestamp/hash comparison is no longer conditional on `waiting_tx_count != 0`")
-    # ends in require_block_does_not_exist with the call's hash and number, result returned
-    rb = [c for c in fn.calls() if (c.method or "") == "require_block_does_not_exist" and not fn.is_cleanup(c.bb)]
-    R.ob(bool(rb) and must_pass_on_success(fn, [c.bb for c in rb]) and all(c.t["dest"]["l"] == 0 or err_propagated(fn, c) for c in rb), "DOM-all",
-         fn.where(), "DOM-all|validate_next_tx|block-exists", "validate_next_tx does not end in require_block_does_not_exist (result returned)",
-         sample={"rule": "DOM-all", "fn": "validate_next_tx", "step": "require_block_does_not_exist"})
-    for c in rb:
-        a1, a2 = origin(fn, c.args[1]), origin(fn, c.args[2])
-        R.ob(mentions(a1, "block_hash") and mentions(a2, "block_number"), "WIRE", c.where(), "WIRE|validate_next_tx|exists-args",
-             "require_block_does_not_exist(%s, %s)" % (show(a1), show(a2)))
-    rfn = [f for f in F.fns.values() if f.name.endswith("Brc20ProgDatabase::require_block_does_not_exist")]
-    if rfn:
-        f = rfn[0]
+    # refuses a block whose number OR whose hash already exists, on every success path, before returning Ok:
+    # the two refusal rows may sit in the validator itself or in a local function it calls with its own
+    # (hash, number) and whose result it returns / propagates
+    def exists_rows(f, hash_name, number_name):
+        """{'number','hash'} subsets: edges `get_block_hash(<number>).is_some() => Err` / `get_block_number(<hash>).is_some() => Err`"""
         eb2 = error_blocks(f)
-        n_err = 0
-        seen = set()
+        seen = {}
         for b in range(len(f.blocks)):
             t = f.term(b)
-            if t["k"] != "switch":
+            if t["k"] != "switch" or f.is_cleanup(b):
                 continue
-            term = origin(f, t["discr"])
-            for s in f.succ(b):
-                be = bool_edge(f, b, s)
-                if be and be[1] is True and mentions(be[0], "is_some") and (s in eb2 or _leads_to_error_only(f, s)):
-                    if mentions(be[0], "get_block_hash"):
-                        seen.add("number")
-                    if mentions(be[0], "get_block_number"):
-                        seen.add("hash")
-        R.ob(seen == {"number", "hash"}, "GUARD", f.where(), "GUARD|require_block_does_not_exist|both",
-             "require_block_does_not_exist refuses only on %s (must refuse an existing number AND an existing hash)" % sorted(seen),
-             sample={"rule": "GUARD", "fn": "require_block_does_not_exist", "refuses": sorted(seen)})
+            for s2 in f.succ(b):
+                be = bool_edge(f, b, s2)
+                if be and be[1] is True and mentions(be[0], "is_some") and (s2 in eb2 or _leads_to_error_only(f, s2)):
+                    if mentions(be[0], "get_block_hash") and mentions(be[0], number_name):
+                        seen.setdefault("number", []).append(b)
+                    if mentions(be[0], "get_block_number") and mentions(be[0], hash_name):
+                        seen.setdefault("hash", []).append(b)
+        return seen
+    seen = {}
+    for k2, bbs in exists_rows(fn, "block_hash", "block_number").items():
+        if must_pass_on_success(fn, bbs):
+            seen[k2] = "inline"
+    for c in fn.calls():
+        if fn.is_cleanup(c.bb) or not c.target_id or c.target_id not in F.fns or not F.fns[c.target_id].blocks:
+            continue
+        g2 = F.fns[c.target_id]
+        if not (g2.j.get("output") or "").startswith("std::result::Result<()"):
+            continue
+        if not (must_pass_on_success(fn, [c.bb]) and (c.t["dest"]["l"] == 0 or err_propagated(fn, c))):
+            continue
+        names = g2.j.get("param_names") or []
+        hn = [n for n, a in zip(names, c.args) if mentions(origin(fn, a), "block_hash")]
+        nn = [n for n, a in zip(names, c.args) if mentions(origin(fn, a), "block_number")]
+        for h in hn or [None]:
+            for n in nn or [None]:
+                if h is None or n is None:
+                    continue
+                for k2, bbs in exists_rows(g2, h, n).items():
+                    if must_pass_on_success(g2, bbs):
+                        seen[k2] = g2.name.split("::")[-1]
+    R.ob(set(seen) == {"number", "hash"}, "GUARD", fn.where(), "GUARD|validate_next_tx|block-exists:%s" % ",".join(sorted({"number", "hash"} - set(seen))),
+         "validate_next_tx no longer refuses, before any mutation, a block whose %s already exists (refusal rows found: %s)" % (
+             " / ".join(sorted({"number", "hash"} - set(seen))), seen),
+         sample={"rule": "GUARD", "fn": "validate_next_tx", "rows": seen})
     # require_no_waiting_txes: Err iff waiting_tx_count != 0
     f = em.get("require_no_waiting_txes")
     ok = False
@@ -446,3 +461,184 @@ def clause_park_rows_together(R, F):
         vv = W.strip(v)
         R.ob(vv[0] == "param" and (pi is None or vv[1] == pi), "WIRE", c.where(), "WIRE|set_pending_tx|txid-value", "txid row holds `%s`, not the call's txid" % show(v)[:60],
              sample={"rule": "WIRE", "fn": "set_pending_tx", "txid_row": "tx.hash -> op_return_tx_id"})
+
+
+# ---------------------------------------------------------------------------------------------------------------
+# block-under-construction record: a reset is a *whole* reset
+
+def _bi_adt(F):
+    """the record guarded by the engine's waiting-count lock: the struct that owns the field `waiting_tx_count`"""
+    for a in F.j["adts"]:
+        if a.get("kind") == "Struct" and any(f["name"] == "waiting_tx_count" for v in a["variants"] for f in v["fields"]):
+            return a
+    return None
+
+
+def _field_reads(t, out=None):
+    """names of struct fields read from a dereferenced parameter inside an origin term"""
+    if out is None:
+        out = set()
+    if isinstance(t, tuple):
+        if len(t) >= 3 and t[0] == "field" and isinstance(t[1], tuple) and t[1][:1] == ("deref",) and isinstance(t[1][1], tuple) and t[1][1][:1] == ("param",):
+            out.add(t[2].lstrip("."))
+        for x in t:
+            _field_reads(x, out)
+    return out
+
+
+def clause_block_info_reset(R, F, owners=("clear_caches", "finalise_block")):
+    """Every write that takes the unfinished-block record back to `waiting_tx_count = 0` resets every accumulator
+    of that record (a field some writer updates from its own previous value) to its initial constant, and the
+    operations that end or abandon a block perform such a reset on every success path.  Otherwise gas/log-index/
+    processing-time of an abandoned block leak into the next one."""
+    from terms import rvalue_origin
+    adt = _bi_adt(F)
+    R.ob(adt is not None, "ANCHOR", "(whole crate)", "ANCHOR|block-info|adt", "no struct with a waiting_tx_count field: the unfinished-block record was not found")
+    if adt is None:
+        return
+    fields = [f["name"] for f in adt["variants"][0]["fields"]]
+    tyname = adt["name"]
+    # initial constants from the constructor(s): fns returning the record whose body builds it from constants only
+    init = {}
+    ctor_ids = set()
+    for f in F.body_fns():
+        if (f.j.get("output") or "") == tyname and f.j["kind"] in ("fn", "method") and f.j["mir"]["argc"] == 0:
+            for bi, b in enumerate(f.blocks):
+                for s in b["stmts"]:
+                    if s["k"] == "assign" and s["lhs"]["l"] == 0 and not s["lhs"].get("p"):
+                        o = rvalue_origin(f, s["rv"], bi, frozenset(), 40)
+                        if o[0] == "agg" and o[1].startswith(tyname):
+                            ctor_ids.add(f.id)
+                            for n, v in zip(fields, o[2]):
+                                init[n] = v
+    R.ob(bool(init), "ANCHOR", "(whole crate)", "ANCHOR|block-info|ctor", "no argument-less constructor of %s found" % tyname)
+    if not init:
+        return
+    # writers
+    writers = []
+    for f in F.body_fns():
+        ls = f.j["mir"]["locals"]
+        ptr = [i for i, l in enumerate(ls[:f.j["mir"]["argc"] + 1]) if (l.get("ty") or "") == "&mut " + tyname]
+        if not ptr:
+            continue
+        whole, per_field = [], {}
+        for bi, b in enumerate(f.blocks):
+            if f.is_cleanup(bi):
+                continue
+            for s in b["stmts"]:
+                if s["k"] != "assign" or s["lhs"]["l"] not in ptr:
+                    continue
+                p = s["lhs"].get("p") or []
+                if p == ["*"]:
+                    whole.append(rvalue_origin(f, s["rv"], bi, frozenset(), 40))
+                elif len(p) == 2 and p[0] == "*" and isinstance(p[1], str):
+                    per_field.setdefault(p[1].lstrip("."), []).append(rvalue_origin(f, s["rv"], bi, frozenset(), 40))
+        if whole or per_field:
+            writers.append((f, whole, per_field))
+    R.floor("block_info_writers", len(writers), 4)
+    # accumulators: fields with a self-dependent, non-identity update somewhere
+    acc = set()
+    for f, whole, per_field in writers:
+        for n, vals in per_field.items():
+            for v in vals:
+                if n in _field_reads(v):
+                    acc.add(n)
+    R.floor("block_info_accumulators", len(acc), 3)
+    R.say("block-info record %s: accumulators %s" % (tyname, sorted(acc)))
+
+    def is_init(n, v):
+        return show(v) == show(init[n])
+
+    resets = set()
+    for f, whole, per_field in writers:
+        for o in whole:
+            if o[0] == "call" and any(F.fns[i].name == o[1] for i in ctor_ids):
+                resets.add(f.id)
+                R.ok(1, sample={"rule": "RESET whole", "writer": f.name[-60:], "value": show(o)[:60]})
+                continue
+            if o[0] == "agg" and o[1].startswith(tyname):
+                vals = dict(zip(fields, o[2]))
+                if show(vals.get("waiting_tx_count")) != show(init["waiting_tx_count"]):
+                    continue
+                bad = [n for n in sorted(acc) if not is_init(n, vals[n])]
+                if not bad:
+                    resets.add(f.id)
+                R.ob(not bad, "RESET", f.where(), "RESET|block-info|%s|%s" % (f.name.split("::")[-2] if "{closure" in f.name else f.name.split("::")[-1], ",".join(bad)),
+                     "the unfinished-block record is rebuilt with waiting_tx_count = 0 but accumulator(s) %s keep a non-initial value" % bad,
+                     sample={"rule": "RESET whole", "writer": f.name[-60:], "value": show(o)[:100]})
+                continue
+            # whole-record assignment from something else (a parameter, a clone): cannot be read
+            R.violation("RESET", f.where(), "RESET|block-info|%s|opaque" % f.name.split("::")[-2], "the unfinished-block record is overwritten by a value that is not its constructor or a literal: %s" % show(o)[:80])
+        w = per_field.get("waiting_tx_count") or []
+        for v in w:
+            if "waiting_tx_count" in _field_reads(v):
+                continue   # the increment
+            owner = f.name.split("::")[-2] if "{closure" in f.name else f.name.split("::")[-1]
+            if show(v) != show(init["waiting_tx_count"]):
+                R.violation("RESET", f.where(), "RESET|block-info|%s|count" % owner, "waiting_tx_count is set to %s (neither the increment nor the initial value)" % show(v)[:40])
+                continue
+            bad = [n for n in sorted(acc) if n != "waiting_tx_count" and not any(is_init(n, x) for x in per_field.get(n, []))]
+            if not bad:
+                resets.add(f.id)
+            R.ob(not bad, "RESET", f.where(), "RESET|block-info|%s|%s" % (owner, ",".join(bad)),
+                 "waiting_tx_count is reset to 0 but accumulator(s) %s of the same record are left as the abandoned block made them: "
+                 "the next block starts with stale gas / log index / processing time" % bad,
+                 sample={"rule": "RESET per-field", "writer": f.name[-60:]})
+    # the operations that end or abandon a block perform a reset on every success path
+    from tablerules import must_pass_on_success
+    em = engine_methods(F)
+    for name in owners:
+        fn = em.get(name)
+        R.ob(fn is not None, "ANCHOR", "(engine)", "ANCHOR|block-info|%s" % name, "engine method %s not found" % name)
+        if fn is None:
+            continue
+        hits = [c.bb for c in fn.calls() if not fn.is_cleanup(c.bb) and any(cl in resets for cl in ((c.func or {}).get("arg_cl") or []) if cl)]
+        R.ob(bool(hits) and must_pass_on_success(fn, hits), "DOM-all", fn.where(), "DOM-all|%s|block-info-reset" % name,
+             "%s does not reset the unfinished-block record (whole reset) on every success path" % name,
+             sample={"rule": "DOM-all", "fn": name, "must": "whole reset of the unfinished-block record"})
+
+
+# ---------------------------------------------------------------------------------------------------------------
+# where an engine operation's steps live: its own body, its closures, or engine-level helpers it always calls
+
+def operation_bodies(F, owner_name, depth=3):
+    """bodies that run as part of engine method `owner_name` on every success path: the method, its closures
+    (handed to lock accessors), and local non-database helper functions called on every success path from those
+    (so that extracting a step into a helper, or inlining one, does not move the anchor)."""
+    em = engine_methods(F)
+    root = em.get(owner_name)
+    if root is None:
+        return []
+    from tablerules import must_pass_on_success
+    out, seen = [], set()
+    work = [(root, 0)]
+    while work:
+        f, d = work.pop()
+        if f.id in seen:
+            continue
+        seen.add(f.id)
+        out.append(f)
+        for ch in F.descendants(f.id):
+            if ch.id not in seen and ch.blocks:
+                work.append((ch, d))
+        if d >= depth:
+            continue
+        for c in f.calls():
+            tid = c.target_id
+            if f.is_cleanup(c.bb) or not tid or tid not in F.fns:
+                continue
+            g = F.fns[tid]
+            if not g.blocks or not g.name.startswith("engine::") or g.id in em_ids(em) and g.id != root.id and g.j.get("vis") == "pub":
+                continue
+            if not must_pass_on_success(f, [c.bb]):
+                continue
+            work.append((g, d + 1))
+    return out
+
+
+def em_ids(em):
+    return {f.id for f in em.values()}
+
+
+def operation_bodies_calling(F, owner_name, method):
+    return [f for f in operation_bodies(F, owner_name) if any((c.method or "") == method and not f.is_cleanup(c.bb) for c in f.calls())]
